@@ -23,7 +23,7 @@ guard true and the pair applies  =>  the real merged step applies and gives the 
 with the guard false is counted (`merged-fails:guard-false`) — each of them is explained by the guard.
 Which pairs merge: the model's `merge` and the real one are compared exactly (merged or not, and the merged step).
 """
-from prosemirror.model import Fragment, Slice
+from prosemirror.model import Fragment, Schema, Slice
 from prosemirror.transform import AddMarkStep, RemoveMarkStep, ReplaceStep
 
 from .. import core, gen, schemas
@@ -43,6 +43,25 @@ def compat_transitive(schema):
     rel = {(a.name, b.name): bool(a.compatible_content(b)) for a in types for b in types}
     return all(not (rel[a.name, b.name] and rel[b.name, c.name]) or rel[a.name, c.name]
                for a in types for b in types for c in types)
+
+
+def text_loop(schema):
+    """`TextLoop` (lean/Proofs/TokValid.lean) on the real content automata: after a text child another text child is
+    accepted and the automaton stays where it is"""
+    text = schema.nodes["text"]
+    for nt in schema.nodes.values():
+        seen, todo = [], [nt.content_match]
+        while todo:
+            m = todo.pop()
+            if any(m is x for x in seen):
+                continue
+            seen.append(m)
+            todo.extend(e.next for e in m.next)
+        for m in seen:
+            q1 = m.match_type(text)
+            if q1 is not None and q1.match_type(text) is not q1:
+                return False
+    return True
 
 
 def merge_branch(s1, s2):
@@ -241,11 +260,16 @@ def run(ctx):
     greqs, gmetas = [], []
     creqs, cmetas = [], []
     guard_of = {}
+    loop_of = {}
 
     def flush():
         gouts = ctx.driver.run(greqs) if greqs else []
         for (name, impl), out in zip(gmetas, gouts):
             ctx.count("guard:model_requests")
+            if isinstance(impl, tuple):
+                if (out.get("ok") or {}).get("textLoop") is not impl[1]:
+                    ctx.mismatch("textLoop", {"schema": name}, impl[1], out)
+                continue
             if out.get("ok") is not impl:
                 ctx.mismatch("compatTrans", {"schema": name}, impl, out)
         del greqs[:], gmetas[:]
@@ -301,6 +325,8 @@ def run(ctx):
                 ctx.violation("merge-raises", f"merge raised {merged}", replay)
                 continue
             ctx.count(("merged:" if merged is not None else "unmerged:") + type(s1).__name__)
+            if merged is not None and not isinstance(s1, ReplaceStep) and not loop_of[id(info)]:
+                ctx.count("merged:" + type(s1).__name__ + ":schema-without-textLoop")
             dm = None
             if merged is not None:
                 replay["merged"] = merged.to_json()
@@ -330,7 +356,12 @@ def run(ctx):
 
     fam = schemas.family()
     aimed = [schemas.by_name("bridge"), schemas.by_name("bridge-local")]    # compatible_content not transitive
-    for si in range(ctx.budget(14, 60)):
+    # schemas without `TextLoop` (a text child cannot always be followed by another one): merged mark steps there
+    aimed += [schemas.SchemaInfo(Schema({"nodes": {"doc": {"content": "para+"}, "para": {"content": c, "marks": "_"},
+                                                    "img": {"inline": True}, "text": {"inline": True}},
+                                         "marks": {"em": {}, "strong": {}}}), name)
+              for name, c in (("text-upto3-local", "text{0,3}"), ("text-img-local", "(text img)* text?"))]
+    for si in range(ctx.budget(16, 60)):
         if len(reqs) >= 15000:
             flush()     # keep memory bounded in long runs
         # the statement quantifies over every schema: after one pass over the family, half of the schemas are random ones
@@ -350,6 +381,12 @@ def run(ctx):
                 ctx.mismatch("compatTrans", {"schema": info.name}, False, "every schema of the bundled family satisfies the guard")
             greqs.append({"op": "compatTrans", "s": info.lean_id})
             gmetas.append((info.name, guard_of[id(info)]))
+            # `TextLoop`, the hypothesis of merge_succeeds_marks: not asked for by the oracle below (a refused merged mark
+            # step is a violation in every schema); counted to show that schemas without it are exercised
+            loop_of[id(info)] = text_loop(schema)
+            ctx.count("textLoop:" + ("family" if is_fam else "random") + (":true" if loop_of[id(info)] else ":false"))
+            greqs.append({"op": "schemaHyps", "s": info.lean_id})
+            gmetas.append((info.name, ("textLoop", loop_of[id(info)])))
         docs = [x for x in (ctx.guard(lambda: gen.gen_doc(rng, schema, budget=rng.choice([6, 12, 25])), "gen_doc")
                             for _ in range(ctx.budget(5, 10))) if x is not None]
         docs += [x for x in (ctx.guard(lambda: gen.gen_marky_doc(rng, schema), "gen_marky_doc") for _ in range(ctx.budget(2, 4))) if x is not None]
@@ -357,7 +394,7 @@ def run(ctx):
             if ctx.time_left() < 0:
                 break
             ctx.guard(lambda: one_doc(info, d, docs), "merge cases of one document")
-        if any(info is x for x in aimed):
+        if info.name in ("bridge", "bridge-local"):
             for d, pairs in aimed_bridge(rng, info, ctx.budget(10, 40)):
                 ctx.guard(lambda: one_doc(info, d, docs + [d], pairs), "aimed merge cases (non-transitive schema)")
     flush()
